@@ -304,6 +304,9 @@ def req_region(facts):
                         args = strip_all(args[0]).get("args", [])
                     if len(args) == 2:
                         ret = (ev(args[0]), ev(args[1]))
+                elif s.get("k") == "Expr" and strip_all(s.get("e") or {}).get("k") == "Assign" and strip_all(s["e"]).get("op") == "=" and strip_all(strip_all(s["e"])["l"]).get("k") == "Ref":
+                    a = strip_all(s["e"])
+                    env[strip_all(a["l"])["d"]] = ev(a["r"])     # a plain assignment at top level defines the variable
                 else:
                     kill(s)
             key = "req_compactor::compute_compaction_range:%s" % ("hra:low==0" if hra else "lra:high==num_items_")
@@ -366,7 +369,8 @@ def req_merge_ranges(facts):
                 if a is None or b is None:
                     return None
                 return a + b if e["op"] == "+" else a - b
-            if k == "Call" and e.get("cname") in ("begin", "end") and strip_all(e.get("obj") or {}).get("k") == "This":
+            if k == "Call" and not e.get("args") and strip_all(e.get("obj") or {"k": "This"}).get("k") == "This":
+                # begin() / end() and any other parameterless helper of the compactor whose body is one return statement
                 r = body_ret(e["cname"])
                 return ev(r, depth + 1) if r is not None else None
             if k == "Call" and e.get("cname") == "get_num_items" and strip_all(e.get("obj") or {}).get("d") == other:
